@@ -22,6 +22,8 @@ Decided on the MIR of the fast_verify builds:
 Not decided: that the chosen randomizer yields a signature that verifies for every interleaving (the winner of a race over
 OsRng draws), nor that it verifies faster - runtime / schedule behaviour.
 """
+import json
+
 from . import c04, core, expr, flow, gf, pf
 from .api import Api
 from .core import AnchorLost
@@ -545,6 +547,35 @@ def m5_threads(chk, F, tree, tag):
         ok_scope = bool(scope_calls) and all(any(f.dominates(s, nb) for s in scope_calls) for nb in nexts)
         chk.ob("M5.workers-joined-before-results-are-read", f.key + tag, ok_scope,
                "in %s the channel is drained without a dominating scoped-thread call: results could be read while workers are still running" % f.path, where=f.loc(nexts[0]))
+        # the drain runs after the workers were joined, so nobody receives while they send: a sender must never block.
+        # An unbounded channel cannot block; a bounded one only if its capacity is the named worker count (one message each)
+        ex5 = expr.Expr(F, f)
+        makers = 0
+        for b, t in f.calls():
+            if f.blocks[b]["cleanup"]:
+                continue
+            c = core.callee_of(t)
+            full = core.strip_generics((c.get("resolved") or c)["path"]) if c else ""
+            lastc = full.rsplit("::", 1)[-1]
+            if "channel" not in full and "mpsc" not in full:
+                continue
+            if lastc in ("unbounded", "channel"):
+                makers += 1
+            elif lastc in ("bounded", "sync_channel"):
+                makers += 1
+                cap = ex5.of_operand(t["args"][0]) if t["args"] else None
+                raw = json.dumps(t["args"][:1])
+                l0 = core.op_local(t["args"][0]) if t["args"] else None
+                if l0 is not None:
+                    for b2, i2, s2 in f.iter_stmts():
+                        if s2["k"] == "assign" and s2["place"]["local"] == l0 and not s2["place"]["proj"]:
+                            raw += json.dumps(s2["rv"])
+                named = "THREADS" in raw or "THREADS" in str(cap)
+                chk.ob("M5.senders-never-block", "%s|%s%s" % (f.key, lastc, tag), named,
+                       "in %s the result channel is created with `%s(%s)` but is only drained after every worker was joined: with more "
+                       "workers than capacity the surplus senders block forever and signing never returns (needs HBS_LMS_THREADS above the capacity)"
+                       % (f.path, lastc, cap), where=f.loc(b))
+        chk.ob("M5.channel-constructor-found", f.key + tag, makers >= 1, "no channel constructor found in %s although it drains a channel" % f.path, where=f.loc(nexts[0]))
         # every owned Sender is dropped / moved before the drain
         live = []
         for l in sorted(senders):
